@@ -41,6 +41,7 @@ type vfC07Case struct {
 	Victim       string // victim zone apex
 	VictimSecure bool
 	Glueless     bool // the victim zone is delegated to a host in another zone, without glue
+	Spoof        bool // an off-path attacker sprays forged answers (guessed transaction IDs) at the resolver whenever it asks the victim's servers
 	QMin         int
 	Steps        []vfC07Step
 }
@@ -157,6 +158,7 @@ func vfC07Decorate(c *vfC07Case, attack string, n int, evilIP string, req, resp 
 func vfC07Gen(rt *rapid.T) *vfC07Case {
 	c := &vfC07Case{QMin: rapid.SampledFrom([]int{0, 0, 5}).Draw(rt, "qmin")}
 	c.VictimSecure = rapid.IntRange(0, 4).Draw(rt, "victimsecure") == 0
+	c.Spoof = rapid.IntRange(0, 3).Draw(rt, "spoof") == 0
 	c.Victim = rapid.SampledFrom([]string{"victim.test.", "victim.test.", "victim.org."}).Draw(rt, "victim")
 	specs := []vfworld.ZoneSpec{
 		{Apex: ".", Signed: true},
@@ -230,6 +232,26 @@ func vfC07Run(t *testing.T, dir string, c *vfC07Case) (res vfC07Result) {
 		}
 		attackN := 0
 		rw.Net.Script = func(p vfworld.Packet, n int, req, resp *dns.Msg, info vfworld.Info) vfworld.Action {
+			if c.Spoof && !evil[p.Addr] && strings.HasPrefix(p.Proto, "udp") && info.Zone != nil && info.Zone.Apex == c.Victim && len(req.Question) == 1 {
+				// the right question, the victim's address as source, poisoned data - but the attacker cannot see the
+				// transaction ID and guesses: 0, all ones, neighbours of the real one (a guess that happens to be right
+				// is not sent: that is luck, not a flaw)
+				var raws [][]byte
+				for _, id := range []uint16{0, 0xffff, req.Id + 1, req.Id ^ 0x00ff, 1} {
+					if id == req.Id {
+						continue
+					}
+					f := new(dns.Msg)
+					f.SetReply(req)
+					f.Id, f.Authoritative = id, true
+					f.Answer = []dns.RR{vfC07A(req.Question[0].Name, vfC07Marker(9))}
+					if b, err := f.Pack(); err == nil {
+						raws = append(raws, b)
+					}
+				}
+				res.Stats["spoofed-bursts"]++
+				return vfworld.Action{Raw: raws}
+			}
 			if !evil[p.Addr] || info.Zone == nil || info.Zone.Apex != vfC07Evil {
 				return vfworld.Action{}
 			}
